@@ -142,20 +142,12 @@ Section Gen.
                  | _ => Some (isort (fun a b => str_leb (fst a) (fst b)) (map (fun wn => (snd wn, fst wn)) names)) end |}.
 End Gen.
 
-(* executable guards of the known findings *)
-Fixpoint ty_has_unhooked (T : ty) : bool :=
-  match T with
-  | TUuid | TTime => true
-  | TList X | TDict X | TOpt X | TWrap X => ty_has_unhooked X
-  | _ => false
-  end.
+(* executable guard of the known finding F03c *)
 Fixpoint ty_has_fwd (T : ty) : bool :=
   match T with
   | TFwd _ => true
   | TList X | TDict X | TOpt X | TWrap X => ty_has_fwd X
   | _ => false
   end.
-Definition guard_F03a (ct : list cls) : bool :=
-  negb (existsb (fun k => existsb (fun f => ty_has_unhooked (f_ty f)) (c_fields k)) ct).
 Definition guard_F03c (ct : list cls) : bool :=
   negb (existsb (fun k => existsb (fun f => ty_has_fwd (f_ty f)) (c_fields k)) ct).
